@@ -71,9 +71,19 @@ def none_defaults(prog: Program, rep, RID: str):
 def complement_removal(prog: Program, rep, RID: str):
     f = prog.own_method("MinGenSet", "__init__")
     hit = None
-    for st in walk_no_nested(f.node):
-        if isinstance(st, ast.If) and any(isinstance(b, ast.Expr) and "elements_to_remove.add(total - " in norm(b) for b in st.body):
-            hit = st
+    # loop-local scalars (e.g. `complement = total - val`) are substituted before the site is read
+    from rules.common import substitute_locals
+    for lp in [n for n in walk_no_nested(f.node) if isinstance(n, ast.For)]:
+        ldefs = {}
+        for s_ in lp.body:
+            if isinstance(s_, ast.Assign) and len(s_.targets) == 1 and isinstance(s_.targets[0], ast.Name):
+                ldefs[s_.targets[0].id] = substitute_locals(s_.value, dict(ldefs))
+        for st in lp.body:
+            if isinstance(st, ast.If):
+                st2 = substitute_locals(st, ldefs)
+                if any(isinstance(b, ast.Expr) and re.search(r"\.add\(total - \w+\)", norm(b)) for b in st2.body):
+                    hit = st2
+                    ast.copy_location(hit, st)
     key = "MinGenSet.__init__:complement-removal"
     if hit is None:
         raise AnalysisError("MinGenSet.__init__: complement removal site not found")
